@@ -869,6 +869,13 @@ def gen_C04(rng, tier, cfg):
                 ops.append("blake fin %d" % slot)
                 ops.append("blake clone %d %d" % (slot, (slot + 1) % 8))
                 ops.append("blake updpat %d %d %d" % ((slot + 1) % 8, rng.choice([b - pre, b, 2 * b + 3]), rng.below(1000)))
+                # the block that was just compressed is the one on which the counter word wraps: its
+                # effect must be observed (digest), not only the counter read back
+                # (not at the format limit t.1 = 2^w - 1, where the debug build panics half-way through
+                # `increase_count` and the object is left partially updated — outside the property)
+                if t1 != W - 1:
+                    ops.append("blake getctr %d" % ((slot + 1) % 8))
+                    ops.append("blake fin %d" % ((slot + 1) % 8))
                 # the slot may have panicked half-way (debug): only look at it again if it did not
                 ops.append("blake new %d %d" % ((slot + 2) % 8, bits))
                 ops.append("blake setctr %d %d %d" % ((slot + 2) % 8, t0, t1))
